@@ -328,4 +328,36 @@ def expandPackageStream (verify strict : Bool) (G : Gz) (H : Hashes) (expected :
             | .error x => .error x
             | .ok (e', c') => .ok (e', some c')
 
+/-! ### the `.dat.tar` next to the `.dat.tar.gz` in the cache directory of a package
+
+`cachePackage` advertises the `.tar.gz` under `<hex of PackageHash>.dat.tar.gz` and then the `.tar` under the same name
+without `.gz` (each: first writer wins); `cachedPackage` → `PackageData()` hands out the `.tar` when there is one and
+otherwise gunzips the `.tar.gz` into place.  Nobody hashes or checks a `.tar` again: what is installed on a cache hit is
+its content. -/
+
+structure DatCache where
+  gz : List (Text × Bytes) := []      -- `<name>.dat.tar.gz`
+  tar : List (Text × Bytes) := []     -- `<name>.dat.tar`
+  deriving DecidableEq, Repr
+
+/-- the data part of `cachePackage` for an expansion (`PackageFile`, `TarFile`) whose data hash prints as `name` -/
+def cacheData (name : Digest) (gzFile tarFile : Bytes) (c : DatCache) : DatCache :=
+  { gz := advertise name gzFile c.gz, tar := advertise name tarFile c.tar }
+
+/-- the data part of `cachedPackage`: the entry must exist; `PackageData()` -/
+def cachedData (G : Gz) (name : Digest) (c : DatCache) : Option (Bytes × DatCache) :=
+  match lookup name c.gz with
+  | none => none
+  | some d =>
+    match lookup name c.tar with
+    | some t => some (t, c)
+    | none =>
+      match gunzipAll G d with
+      | none => none
+      | some t => some (t, { c with tar := (name, t) :: c.tar })
+
+/-- every `.tar` is the gunzip of the `.tar.gz` of its name -/
+def DatInv (G : Gz) (c : DatCache) : Prop :=
+  ∀ n t, lookup n c.tar = some t → ∃ d, lookup n c.gz = some d ∧ gunzipAll G d = some t
+
 end Apko.ExpandSplit
